@@ -9,9 +9,14 @@ Model of the backend request authentication: C02.
   a statement changes the function the theorems are about;
 * `backend_client.go`: `PerformJSONRequest` as far as the two headers are concerned.
 
+* `backend_configuration.go` / `backend_storage_static.go`: which configured backend a URL
+  belongs to (`getBackendLocked`, `getConfiguredHosts`), interpreted from the extracted
+  statements, for URLs of the plain shape `http(s)://host/path`.
+
 The MAC is a parameter (`Hmac.Mac`).  Which backend a `Spreed-Signaling-Backend` header
-value resolves to (`url.Parse` + `BackendConfiguration.GetBackend`) is an input (`Hdr`):
-that lookup is C13's subject.  Whether an authenticated body decodes into a valid,
+value resolves to is computed by `hdrOf` for plain URLs in a configuration with backend
+URLs; for other values (`url.Parse` failures, escapes, dot segments, other schemes) and in
+the compat modes it is an input (`Hdr`; the table itself is C13's subject).  Whether an authenticated body decodes into a valid,
 supported room request is an input too (`bodyOk`): that is C11's subject.
 -/
 import SigModel.Basic.Hmac
@@ -156,5 +161,53 @@ def performRequest (mac : Mac) (target : Option Backend) (entropy body : Bytes) 
   match target with
   | none => none
   | some b => if outgoingPostSitesSigned = outgoingPostSites then some (addChecksum mac entropy body b.secret) else none
+
+/-! ### backend_configuration.go / backend_storage_static.go: which backend a URL belongs to
+
+`BackendConfiguration.GetBackend` → `storage.GetBackend` → `getBackendLocked`, for URLs of the plain
+shape `http(s)://host[:port]/path` without query, fragment, escapes or dot segments (`url.Parse` followed
+by `u.String()` is then the identity; everything else stays an input, see `Hdr`).  Interpreted from the
+extracted statement lists: the `'/'`-termination of the looked-up URL and the comparison in the loop.
+Not modelled separately because subsumed for such URLs by the comparison of whole URL strings with a
+`'/'`-terminated entry URL: the host table (`s.backends[u.Host]`) and the scheme rule (`IsUrlAllowed`). -/
+
+/-- A configured backend with the URL `getConfiguredHosts` stores for it. -/
+structure Entry where
+  backend : Backend
+  url : List Char
+  deriving Repr
+
+def endsSlash (u : List Char) : Bool := u.getLast? == some '/'
+
+/-- `if x[len(x)-1] != '/' { x += "/" }`. -/
+def slashTerm (u : List Char) : List Char := if endsSlash u then u else u ++ ['/']
+
+def stmtConfigAppendsSlash : String := "if u[len(u)-1] != '/' { u += \"/\" }"
+def stmtLookupAppendsSlash : String := "if url[len(url)-1] != '/' { url += \"/\" }"
+def stmtLookupLoop : String :=
+  "for _, entry := range entries { if !entry.IsUrlAllowed(u) { continue } if entry.url == \"\" { return entry } else if strings.HasPrefix(url, entry.url) { return entry } }"
+
+/-- `getConfiguredHosts`: the URL an entry is stored with. -/
+def configUrl (u : List Char) : List Char :=
+  if configUrlProgram.contains stmtConfigAppendsSlash then slashTerm u else u
+
+/-- The local `url` of `getBackendLocked` when the loop starts. -/
+def lookupKey (u : List Char) : List Char :=
+  if lookupProgram.contains stmtLookupAppendsSlash then slashTerm u else u
+
+/-- The loop body: `strings.HasPrefix(url, entry.url)` (an entry without URL — compat — matches). -/
+def entryMatches (key : List Char) (e : Entry) : Bool :=
+  if lookupProgram.contains stmtLookupLoop then e.url.isPrefixOf key else false
+
+/-- `getBackendLocked`: the first entry that matches, in the order of the configuration. -/
+def lookup (es : List Entry) (u : List Char) : Option Backend :=
+  (es.find? (entryMatches (lookupKey u))).map (·.backend)
+
+/-- What a `Spreed-Signaling-Backend` value of the plain shape amounts to. -/
+def hdrOf (es : List Entry) (value : List Char) : Hdr :=
+  if value.isEmpty then .absent else
+  match lookup es value with
+  | some b => .known b
+  | none => .unknown
 
 end SigModel.Checksum
